@@ -44,3 +44,29 @@ Print Assumptions C19_scope_never_widens.
 Theorem C19_scope_outermost : forall p ps, scope_nest None (p :: ps) = Some p.
 Proof. exact scope_outermost_wins. Qed.
 Print Assumptions C19_scope_outermost.
+
+(* evaluate(code, permission=arg) under enclosing scopes: whatever is enforced is within the
+   outermost enclosing scope AND within the argument; the empty set is enforced, not ignored.
+   (Stated on [eval_perm] as regenerated from the current execution.py.) *)
+Theorem C19_evaluate_never_widens_scope : forall arg p ps e,
+  eval_perm arg (scope_nest None (p :: ps)) = Some e -> subset_bits e p = true.
+Proof. exact evaluate_never_widens_scope. Qed.
+Print Assumptions C19_evaluate_never_widens_scope.
+
+Theorem C19_evaluate_respects_argument : forall a s e, eval_perm (Some a) s = Some e -> subset_bits e a = true.
+Proof. exact evaluate_respects_argument. Qed.
+Print Assumptions C19_evaluate_respects_argument.
+
+Theorem C19_evaluate_enforced_when_any_permission_given : forall a s,
+  eval_perm (Some a) s <> None /\ eval_perm None (Some a) <> None /\ eval_perm (Some 0) s = Some 0.
+Proof. exact evaluate_enforced_when_any_permission_given. Qed.
+Print Assumptions C19_evaluate_enforced_when_any_permission_given.
+
+(* End to end: a named construct at any depth whose flag is missing from the argument or from the
+   outermost enclosing scope makes evaluate() refuse the program. *)
+Theorem C19_evaluate_refuses : forall arg scopes t n f,
+  subnode n t -> In (kind n, f) required_pairs ->
+  (exists a, arg = Some a /\ N.testbit a f = false) \/ (exists p ps, scopes = p :: ps /\ N.testbit p f = false) ->
+  evaluate_accepts tbl arg scopes t = false.
+Proof. exact evaluate_refuses. Qed.
+Print Assumptions C19_evaluate_refuses.
